@@ -106,6 +106,13 @@ impl IndexRead {
         if entries.is_empty() {
             // It's legal, it's just weird - and it can be produced by some old Conserve versions.
         }
+        // A damaged hunk can still decode, into values that would later cause a panic:
+        // treat it like one that doesn't decode.
+        for entry in &entries {
+            entry.check().map_err(|details| Error::InvalidMetadata {
+                details: format!("{path}: {details}"),
+            })?;
+        }
         Ok(Some(entries))
     }
 
